@@ -1,11 +1,117 @@
-import EpModel.Model.Dec.Sliced
-import EpModel.Spec.Decode
+import EpModel.Lemmas.DecRefineEntry
+import EpModel.Lemmas.DecWithin
 /-
   C03 — strict packet slicing matches the wire formats for every byte string.
-  (first theorems; the refinement to Spec.decode is added below as it is proved)
+
+  `Spec.decode` (Spec/Decode.lean) is the wire-format reading of a byte string: a generic walk that
+  knows, per layer, only the header layout, which field bounds the data behind it and the documented
+  content rules.  It shares no code with the model of the crate's cursor (Model/Dec/*), which mirrors
+  the Rust call structure (per-type `from_slice`, relative offsets fixed up by `add_offset`, `len_source`
+  overrides, struct-free extension walk, three hand-copied IP boundary computations).
+
+  The theorems below say: for EVERY byte string and EVERY start, the cursor model returns exactly the
+  packet (layer sequence, windows, fragmentation flag, length source, …) that `Spec.decode` returns, and
+  fails exactly when `Spec.decode` reports a fault – with an error that describes that fault (this half
+  is C07's subject and re-exported there).
+
+  The tie of `Model/Dec` to the Rust code is the correspondence check (tools/epcheck/props/c03.py), which
+  also runs `spec.dec.decode` on every generated input, so that the statement "impl = spec" is tested
+  directly in addition to "impl = model" + this proof.
 -/
 namespace EpModel.Props.C03
-open EpModel EpModel.Dec
+open EpModel EpModel.Dec EpModel.Spec EpModel.Lemmas.Refine EpModel.Lemmas.Dec
+
+/-- The model's answer against the wire-format decoding: the same packet, or an error describing the
+    spec's fault (`ErrMatch`: layer, absolute offset, available and required bytes, limiting length
+    field; or the offending value of a content rule). -/
+def Refines (m : Except PErr Packet) (s : Except Fault Packet) : Prop :=
+  match m, s with
+  | .ok p, .ok p' => p = p'
+  | .error e, .error f => ErrMatch e f
+  | _, _ => False
+
+theorem refines_of_rel {m : Except PErr Packet} {s : Packet × Option Fault} (h : Rel m s) :
+    Refines m (verdict s) := by
+  obtain ⟨p, f⟩ := s
+  cases m <;> cases f <;> simp only [Rel] at h <;> simp only [Refines, verdict] <;> first | exact h | exact h.elim
+
+theorem byteMem_memOf (b : Bytes) : ByteMem (memOf b) := fun i => bAt_lt b i
+
+/-- `SlicedPacket::from_ethernet` = wire formats, for every byte string. -/
+theorem strict_from_ethernet_matches_wire_formats (b : Bytes) :
+    Refines (slicedFromEthernet (memOf b) b.length) (Spec.decode .eth (memOf b) b.length) :=
+  refines_of_rel (from_ethernet_refines (memOf b) (byteMem_memOf b) b.length)
+
+/-- `SlicedPacket::from_linux_sll` = wire formats, for every byte string. -/
+theorem strict_from_linux_sll_matches_wire_formats (b : Bytes) :
+    Refines (slicedFromLinuxSll (memOf b) b.length) (Spec.decode .sll (memOf b) b.length) :=
+  refines_of_rel (from_linux_sll_refines (memOf b) (byteMem_memOf b) b.length)
+
+/-- `SlicedPacket::from_ether_type` = wire formats, for every ether type and byte string. -/
+theorem strict_from_ether_type_matches_wire_formats (et : Nat) (b : Bytes) :
+    Refines (slicedFromEtherType (memOf b) et b.length) (Spec.decode (.etherType et) (memOf b) b.length) :=
+  refines_of_rel (from_ether_type_refines (memOf b) (byteMem_memOf b) et b.length)
+
+/-- `SlicedPacket::from_ip` = wire formats.  The one input class on which the error *value* may differ
+    is an IPv4 header in 1..19 bytes: `IpSlice::from_slice` looks at the IHL before the length, so it
+    names the bad IHL, or requires `ihl*4` bytes, where the wire-format reading says "20 bytes needed".
+    Both reject, and both statements are true of the bytes (`ShortV4`). -/
+theorem strict_from_ip_matches_wire_formats (b : Bytes) :
+    if memOf b 0 / 16 = 4 ∧ 0 < b.length ∧ b.length < 20 then
+      (∃ e, slicedFromIp (memOf b) b.length = .error e ∧ ShortV4 (memOf b) 0 b.length Cur.new e) ∧
+        Spec.decode .ip (memOf b) b.length =
+          .error (mkFault (ctx0 b.length) .cutShort .ipv4Header 20)
+    else Refines (slicedFromIp (memOf b) b.length) (Spec.decode .ip (memOf b) b.length) := by
+  have h := from_ip_refines (memOf b) (byteMem_memOf b) b.length
+  split
+  · rename_i hc
+    simp only [hc, and_self, if_true] at h
+    refine ⟨h.1, ?_⟩
+    have h2 := h.2
+    show verdict (walkN false (memOf b) maxSteps Packet.empty Tag.ipAny (ctx0 b.length)) = _
+    revert h2
+    generalize walkN false (memOf b) maxSteps Packet.empty Tag.ipAny (ctx0 b.length) = r
+    intro h2
+    obtain ⟨p, f⟩ := r
+    simp only at h2
+    subst h2
+    rfl
+  · rename_i hc
+    simp only [hc, if_false] at h
+    exact refines_of_rel h
+
+/-- Slicing fails exactly when the wire formats say the bytes are faulty: all four starts. -/
+theorem strict_rejects_iff_fault (b : Bytes) :
+    ((slicedFromEthernet (memOf b) b.length).isOk = (Spec.decode .eth (memOf b) b.length).isOk) ∧
+    ((slicedFromLinuxSll (memOf b) b.length).isOk = (Spec.decode .sll (memOf b) b.length).isOk) ∧
+    (∀ et, (slicedFromEtherType (memOf b) et b.length).isOk =
+      (Spec.decode (.etherType et) (memOf b) b.length).isOk) ∧
+    ((slicedFromIp (memOf b) b.length).isOk = (Spec.decode .ip (memOf b) b.length).isOk) := by
+  have key : ∀ (m : Except PErr Packet) (s : Except Fault Packet), Refines m s → m.isOk = s.isOk := by
+    intro m s h
+    cases m <;> cases s <;> simp_all [Refines, Except.isOk, Except.toBool]
+  refine ⟨key _ _ (strict_from_ethernet_matches_wire_formats b),
+    key _ _ (strict_from_linux_sll_matches_wire_formats b),
+    fun et => key _ _ (strict_from_ether_type_matches_wire_formats et b), ?_⟩
+  have h := strict_from_ip_matches_wire_formats b
+  split at h
+  · obtain ⟨⟨e, he, _⟩, hd⟩ := h
+    rw [he, hd]; rfl
+  · exact key _ _ h
+
+/-- Consequence for the spec itself: every window of a wire-format decoding lies inside the input
+    (so `Spec.decode` is not a vacuous oracle that could hand out ranges the input does not have). -/
+theorem spec_decode_within (b : Bytes) (p : Packet) (h : Spec.decode .eth (memOf b) b.length = .ok p) :
+    PacketIn p 0 b.length := by
+  have hr := strict_from_ethernet_matches_wire_formats b
+  rw [h] at hr
+  cases hm : slicedFromEthernet (memOf b) b.length with
+  | error e => rw [hm] at hr; simp [Refines] at hr
+  | ok p' =>
+    rw [hm] at hr
+    simp only [Refines] at hr
+    subst hr
+    exact slicedFromEthernet_in (memOf b) b.length p' hm
 
 /-- UDP: the slice handed out never extends past the UDP length field nor past the data. -/
 theorem udp_bounded (g : Mem) (o l : Nat) (w : Win) (h : udpFromSlice g o l = .ok w) :
